@@ -44,6 +44,11 @@ def cmd_check(pid, tier):
     except facts.Inconclusive as e:
         chk.inconc(str(e))
         kw = {}
+    except Exception as e:  # a shape the rule code did not foresee: fail closed, never crash silently
+        import traceback
+        tb = traceback.format_exc().strip().splitlines()
+        chk.inconc("rule engine error (%s: %s) at %s" % (type(e).__name__, e, tb[-3].strip() if len(tb) >= 3 else ""))
+        kw = {}
     return report.finish(chk, **kw)
 
 
